@@ -55,6 +55,8 @@ def message_pool(remote_as, r=None):
         ('open_hold2', frame(1, open_body(remote_as, 2))),
         ('open_hold65535', frame(1, open_body(remote_as, 65535, caps=std_caps(remote_as)))),
         ('open_badver', frame(1, open_body(remote_as, 90, version=3))),
+        ('open_ver5', frame(1, open_body(remote_as, 90, version=5, caps=std_caps(remote_as)))),
+        ('open_ver255', frame(1, open_body(remote_as, 90, version=255))),
         ('open_wrongas', frame(1, open_body(remote_as + 1, 90, caps=std_caps(remote_as + 1)))),
         ('open_as4_mismatch_cap', frame(1, struct.pack('!BHHIB', 4, remote_as if remote_as <= 65535 else 23456, 90, 0x0a000002, 8)
                                          + cap(65, struct.pack('!I', (remote_as + 7) & 0xffffffff)))),
